@@ -596,6 +596,82 @@ def gen_cases(chk, tier):
     fault("output-not-simulated", lambda d: (d["parameters"].update(phase_assemblage=["enstatite"], phase_fractions=[1.0]),
                                               d["output"].update(raw_output=["olivine"], diagnostics=["enstatite"])))
 
+    # G2. every single-fault kind crossed with every SPELLING of the values involved (added after seeded change C19e: the
+    #     message of the length-mismatch error joined the raw phase list, which fails for integer spellings only).
+    #     Phases by name / integer ordinal / bool / mixed, lists of length 1..3, both directions of the length mismatch,
+    #     fractions as int / float, fabric letters upper / lower, coefficient lists of ints / floats.  Expectation for
+    #     all of them: exactly ConfigError (any other exception type is a violation).
+    NAME, ORD, BOOL = ["olivine", "enstatite"], [0, 1], [False, True]
+
+    def spellings(n):
+        """phase lists of length n (alternating olivine / enstatite) in every spelling"""
+        idx = [i % 2 for i in range(n)]
+        out = {"names": [NAME[i] for i in idx], "ints": [ORD[i] for i in idx], "bools": [BOOL[i] for i in idx]}
+        if n >= 2:
+            out["mixed-int-last"] = [NAME[i] for i in idx[:-1]] + [ORD[idx[-1]]]
+            out["mixed-int-first"] = [ORD[idx[0]]] + [NAME[i] for i in idx[1:]]
+            out["mixed-bool-last"] = [NAME[i] for i in idx[:-1]] + [BOOL[idx[-1]]]
+        return out
+
+    FRACTIONS = {1: {"float": [1.0], "int": [1]}, 2: {"float": [0.5, 0.5], "int": [1, 0], "mixed": [0.25, 0.75]},
+                 3: {"float": [0.5, 0.25, 0.25], "int": [0, 1, 0], "mixed": [0.5, 0.5, 0]}}
+
+    def spelled(kind, detail, pa, fr, expect="invalid", **extra):
+        doc = full_doc("none")
+        doc["parameters"]["phase_assemblage"] = pa
+        doc["parameters"]["phase_fractions"] = fr
+        doc["output"].pop("raw_output")
+        doc["output"].pop("diagnostics")
+        for k, v in extra.items():
+            doc["parameters"][k] = v
+        add("fault-spelling:" + kind, doc, expect=expect, detail=detail)
+
+    for np_ in (1, 2, 3):
+        for nf in (1, 2, 3):
+            for sp, pa in spellings(np_).items():
+                for fs, fr in FRACTIONS[nf].items():
+                    if np_ != nf:                      # length mismatch, both directions; the fractions sum to one
+                        spelled("length", f"{np_} phases ({sp}) / {nf} fractions ({fs})", pa, fr)
+                    else:                              # control: the same spellings with matching lengths parse
+                        spelled("control", f"{np_} phases ({sp}) / {nf} fractions ({fs})", pa, fr, expect="valid")
+    for n in (1, 2, 3):
+        for sp, pa in spellings(n).items():
+            bad_fr = {1: [0.9], 2: [0.7, 0.2], 3: [0.5, 0.25, 0.2]}[n]
+            spelled("sum", f"{n} phases ({sp})", pa, bad_fr)
+            spelled("sum", f"{n} phases ({sp}), int fractions", pa, [1] * n if n > 1 else [2])
+            for badname, bad in (("unknown-name", "quartz"), ("ordinal-out-of-range", 5), ("negative-ordinal", -1), ("float", 0.5),
+                                 ("capitalised", "Olivine"), ("empty", "")):
+                for pos in sorted({0, n - 1}):
+                    pa2 = list(pa)
+                    pa2[pos] = bad
+                    spelled("phase", f"{badname} at {pos} of {n} ({sp})", pa2, FRACTIONS[n]["float"])
+            for fname, fab in (("lower", "a"), ("lower-b", "b"), ("unknown", "F"), ("int", 1), ("two-letters", "AB"), ("prefixed", "olivine_A"),
+                               ("float", 1.5), ("list", ["A"])):
+                spelled("fabric", f"{fname} with {n} phases ({sp})", pa, FRACTIONS[n]["float"], initial_olivine_fabric=fab)
+            for cname, co in (("6 ints", [1] * 6), ("8 floats", [1.0] * 8), ("6 floats", [0.5] * 6), ("8 mixed", [1, 2.0] * 4), ("empty", [])):
+                spelled("coefficients", f"{cname} with {n} phases ({sp})", pa, FRACTIONS[n]["float"], disl_coefficients=co)
+    for letter in "ABCDE":                             # control: upper-case letters with integer-spelled phases parse
+        spelled("control", f"fabric {letter}, phases by ordinal", [0, 1], [0.5, 0.5], expect="valid", initial_olivine_fabric=letter)
+    spelled("control", "7 int coefficients", [0], [1], expect="valid", disl_coefficients=[1, 2, 3, 4, 5, 6, 7])
+    # output-phase faults with the assemblage spelled by ordinals
+    for lvl in ("raw_output", "diagnostics"):
+        for badname, bad in (("unknown-name", ["quartz"]), ("not-simulated", ["enstatite"]), ("ordinal", [0]), ("mixed", ["olivine", 1])):
+            doc = full_doc("none")
+            doc["parameters"]["phase_assemblage"], doc["parameters"]["phase_fractions"] = [0], [1]
+            doc["output"]["raw_output"], doc["output"]["diagnostics"] = ["olivine"], ["olivine"]
+            doc["output"][lvl] = bad
+            add("fault-spelling:output-phase", doc, expect="invalid" if badname in ("unknown-name", "not-simulated") else "unclaimed",
+                detail=f"{lvl} {badname}")
+    # lists vs scalars (outside the statement of C19: compared with the model only)
+    for k, v in (("phase_fractions", 1.0), ("phase_fractions", 1), ("phase_assemblage", "olivine"), ("phase_assemblage", 0),
+                 ("disl_coefficients", 7.0)):
+        doc = full_doc("none")
+        doc["parameters"]["phase_assemblage"], doc["parameters"]["phase_fractions"] = [0], [1.0]
+        doc["parameters"][k] = v
+        doc["output"].pop("raw_output")
+        doc["output"].pop("diagnostics")
+        add("fault-spelling:scalar-for-list", doc, expect="unclaimed", detail=f"{k} = {v!r}")
+
     # the witnesses of the recorded findings (expected outcome depends on the inferred variant)
     def finding(flag, mut, expect_fixed="invalid"):
         doc = full_doc("none")
@@ -1001,7 +1077,10 @@ def run(chk):
         "dropped together, 6 [output] keys, input.strain_final, name, the [output] and [parameters] tables), all omitted, seeded "
         "pairwise and random subsets; all phase lists of length 0..4 in name/int/bool spelling with seeded fractions; fabric letters "
         "A-E and invalid ones; fraction lists probing the float sum (0.1*10, 1+-ulp, nan, inf, ints, bools, n up to 200, seeded "
-        "splits); all 32 combinations of the five input-mode keys with stub files; every single fault; the witnesses of recorded "
+        "splits); all 32 combinations of the five input-mode keys with stub files; every single fault; every single-fault kind crossed "
+        "with every spelling of the values involved (phases by name / ordinal / bool / mixed in lists of length 1..3, fractions as "
+        "float / int, both directions of the length mismatch, invalid phases at the first / last position, fabric letters lower / "
+        "unknown / non-string, coefficient lists of ints / floats; expectation: exactly ConfigError; matching controls); the witnesses of recorded "
         "findings; type confusions covered by the model. distinct = distinct TOML text; non-trivial = anything but the four fully "
         "populated files")
     chk.assumptions.append(
